@@ -16,8 +16,7 @@ Print Assumptions C01_manager_never_leaves_a_future_unresolved.
 
 Theorem C01_nothing_is_accepted_afterwards :
   forall n es, no_resize es = true -> let p := run es (pool0 n) in mgr p = MDone -> user p = true ->
-    step p Submit = mkp (user p) (shut p) (broken p) (kill p) (gshut p) (maxw p) (procs p) (pending p) (submitted p) (ok p)
-                        (failB p) (failS p) (S (refused p)) (mgr p).
+    step p Submit = refuse p.
 Proof. exact after_the_manager_nothing_is_accepted. Qed.
 Print Assumptions C01_nothing_is_accepted_afterwards.
 
@@ -34,7 +33,7 @@ Proof. split; [exact LedgerThm.broken_exit_good | exact LedgerThm.normal_exit_go
 Print Assumptions C01_exits_never_join_a_live_worker.
 
 Example C01_example :
-  let p := run [Submit; Submit; Complete 0; ShutdownCall false; CheckShut; MgrOp; MgrOp; MgrOp; Complete 1; CheckShut; MgrOp; MgrOp; MgrOp;
-                MgrOp; MgrOp; MgrOp; MgrOp; MgrOp; MgrOp; MgrOp; Submit] (pool0 2) in
+  let p := run (submit_all ++ submit_all ++ [Complete 0; ShutdownCall false; CheckShut; MgrOp; MgrOp; MgrOp; Complete 1; CheckShut; MgrOp; MgrOp;
+                MgrOp; MgrOp; MgrOp; MgrOp; MgrOp; MgrOp; MgrOp; MgrOp; Submit]) (pool0 2) in
   mgr p = MDone /\ ok p = 2 /\ submitted p = 2 /\ refused p = 1.
 Proof. vm_compute. auto. Qed.
